@@ -116,14 +116,32 @@ def plan(tier, only_units=None):
                 continue
             for std in ('c++11', 'c++14', 'c++20'):
                 jobs.append((u, std, 'gnuc10', ()))
-        if not only_units:
-            inc = ['-I' + os.path.join(REPO, 'tests'), '-I' + os.path.join(REPO, 'tests', 'unittest')]
-            for u in test_units():
-                jobs.append((u, 'gnu++17', 'gnuc10', tuple(inc)))
+        # cover what the build covers: the repository's own unit-test and tutorial units
+        inc = ['-I' + os.path.join(REPO, 'tests'), '-I' + os.path.join(REPO, 'tests', 'unittest')]
+        for u in test_units():
+            jobs.append((u, 'gnu++17', 'gnuc10', tuple(inc)))
     return jobs
 
 
+def prune_cache(limit_bytes=3 << 30):
+    """Keep the fact cache below `limit_bytes` by deleting the least recently used files."""
+    try:
+        fs = [(os.path.getatime(os.path.join(CACHE, f)), os.path.getsize(os.path.join(CACHE, f)), os.path.join(CACHE, f)) for f in os.listdir(CACHE)]
+    except OSError:
+        return
+    total = sum(x[1] for x in fs)
+    for at, sz, p in sorted(fs):
+        if total <= limit_bytes:
+            break
+        try:
+            os.remove(p)
+            total -= sz
+        except OSError:
+            pass
+
+
 def load(tier='quick', only_units=None, verbose=False):
+    prune_cache()
     jobs = plan(tier, only_units)
     results = [None] * len(jobs)
 
